@@ -333,6 +333,11 @@ def optimize_facts(se_tree, se_src):
     kws = {k.arg: ast.unparse(k.value) for k in r.keywords}
     expected = {"dialect": "dialect", "schema": "self.catalog._schema", "infer_schema": "True",
                 "quote_identifiers": "quote_identifiers", "rules": "rules"}
+    # the one rule option sqlframe sets: alias references are NOT expanded by qualify (repair of the
+    # where / sibling-item alias capture); absent = sqlglot's default (True).  Anything else is unknown.
+    expand = kws.pop("expand_alias_refs", "True")
+    if expand not in ("True", "False"):
+        raise Untranslatable(f"_optimize: expand_alias_refs={expand}")
     if kws != expected:
         raise Untranslatable(f"_optimize: optimize(...) keywords are {kws}")
     # where OPTIMIZER_RULES comes from
@@ -340,7 +345,7 @@ def optimize_facts(se_tree, se_src):
     if not (len(imp) == 1 and imp[0].module == "sqlglot.optimizer" and
             [a.name for a in imp[0].names if a.asname == "OPTIMIZER_RULES"] == ["RULES"]):
         raise Untranslatable("OPTIMIZER_RULES is no longer sqlglot.optimizer.RULES")
-    return {"optimize_default_quote": d_quote, "hash": py2v.src_hash(f, se_src)}
+    return {"optimize_default_quote": d_quote, "expand_alias_refs": expand == "True", "hash": py2v.src_hash(f, se_src)}
 
 
 def hash_facts(df_tree, df_src):
@@ -443,7 +448,8 @@ def generate(repo: str, reserved=None):
          f"  ge_same_tail_for_both := {b(ge['ge_same_tail_for_both'])} |}}.",
          f'Definition hash_prefix : string := "{ha["hash_prefix"]}".',
          f"Definition hash_len : nat := {ha['hash_len']}.",
-         f"Definition optimize_default_quote : bool := {b(op['optimize_default_quote'])}."]
+         f"Definition optimize_default_quote : bool := {b(op['optimize_default_quote'])}.",
+         f"Definition optimize_expands_alias_refs : bool := {b(op['expand_alias_refs'])}."]
     if reserved is not None:
         from vlib.core import strlit
         L.append("(* ENVIRONMENT table: select keyword_name from duckdb_keywords() where keyword_category in "
@@ -460,7 +466,7 @@ def generate(repo: str, reserved=None):
          "value": {k: v for k, v in se.items() if k != "hash"}},
         {"name": "_optimize rule-list edit", "from": "session.py: _BaseSession._optimize", "hash": op["hash"],
          "value": "rules = list(sqlglot.optimizer.RULES); quote_identifiers_func applied first when quoting, "
-                  "removed from the list otherwise"},
+                  "removed from the list otherwise; expand_alias_refs=" + str(op["expand_alias_refs"])},
         {"name": "CTE hash format", "from": "dataframe.py: _create_hash_from_expression / _replace_cte_names_with_hashes",
          "hash": ha["hash"], "value": {"prefix": ha["hash_prefix"], "len": ha["hash_len"]}},
         {"name": "no engine override", "from": "duckdb/dataframe.py, duckdb/session.py, mixins/dataframe_mixins.py",
